@@ -256,8 +256,41 @@ func verifyFunc(prog *Program, fc *FuncContract) (res *FuncResult) {
 	if sig.Results().Len() > 0 {
 		bindResults(env, sig, resVal)
 	}
+	perReturn := fc.Opts["atomic"] == "lock"
 	for _, en := range fc.Ensures {
-		g := e.evContract(final, en.Expr, env)
+		var g Term
+		if perReturn {
+			// each return is judged against the state at its own last lock acquisition
+			g = True
+			for _, rr := range live {
+				renv := &cenv{vals: map[string]Val{}, resolve: env.resolve, old: old, pkgPath: env.pkgPath}
+				for k, v := range env.vals {
+					renv.vals[k] = v
+				}
+				if rr.st.anchor != nil {
+					renv.old = rr.st.anchor
+				}
+				var rv Val
+				switch len(rr.vals) {
+				case 0:
+				case 1:
+					rv = rr.vals[0]
+					rv.GT = sig.Results().At(0).Type()
+				default:
+					vs := append([]Val{}, rr.vals...)
+					for k := range vs {
+						vs[k].GT = sig.Results().At(k).Type()
+					}
+					rv = Val{Tuple: vs}
+				}
+				if sig.Results().Len() > 0 {
+					bindResults(renv, sig, rv)
+				}
+				g = And(g, Implies(rr.st.pc, e.evContract(rr.st, en.Expr, renv)))
+			}
+		} else {
+			g = e.evContract(final, en.Expr, env)
+		}
 		var region Term
 		if en.Region != "" {
 			region = e.regionTerm(final, en.Region, env)
